@@ -71,6 +71,7 @@ Proof.
       destruct (a =? 34); [intros [= <- _ _]; unfold_pows; lia|discriminate].
     + intros a acc H. discriminate.
     + cbn. congruence.
-  - cbn. repeat split; try lia; try discriminate; auto.
+  - vm_compute. repeat split; intros; try discriminate; try reflexivity; try (right; left; discriminate); auto;
+      try (match goal with H : Some _ = Some ?x |- _ => injection H as <-; discriminate end).
   - vm_compute. eauto.
 Qed.
